@@ -86,6 +86,7 @@ fn main() {
     "C10" => vprop::c10::run(&cfg),
     "C12" => vprop::c12::run(&cfg),
     "C19" => vprop::c19::run(&cfg),
+    "C20" => vprop::c20::run(&cfg),
     _ => {
       eprintln!("unknown property {prop}");
       2
